@@ -464,14 +464,15 @@ Proof.
            assert (OKW2 : ok (AN chk r (EWhile c b) h) = true).
            { cbn [an]. change {| L := kall; cs := cs h |} with h. exact OKW. }
            pose proof (IH chk r (EWhile c b) h ab en2 s2 P0 lo KH2 OKW2 T2 GH) as P3.
-           cbn [ban] in P3. fold q in P3. fold (bbind (bn q) (BN b)) in P3. rewrite B1 in P3. cbn [bbind option_map fst] in P3.
-           rewrite J1, J2 in P3. cbn [bn bb br bok] in P3. apply P3. exact BOKW.
+           cbn [ban] in P3. rewrite B1 in P3. cbn [bbind option_map fst] in P3.
+           rewrite J1, J2 in P3. cbn [bn bb br bok] in P3. apply P3.
+           exact BOKW.
         -- destruct P2 as (a2 & B2 & G2). destruct (sjoin_r _ _ _ _ _ _ _ _ J1 B2 G2) as (a3 & -> & G3).
            cbn [option_map]. exists a3, VBool. split; [reflexivity|split; [exact G3|apply vok_true]].
         -- destruct P2 as (a2 & B2 & G2 & BV). destruct (sjoin_r _ _ _ _ _ _ _ _ J2 B2 G2) as (a3 & E3 & G3). eauto.
       * destruct (sjoin_l _ _ _ _ _ _ _ _ J1 eq_refl G1) as (a3 & -> & G3).
         cbn [option_map]. exists a3, VBool. split; [reflexivity|split; [exact G3|apply vok_true]].
-    + destruct P1 as (a1 & B1 & _). rewrite B1 in NOBC. discriminate.
+    + destruct P1 as (a1 & B1 & _). unfold q in *. rewrite B1 in NOBC. discriminate.
     + destruct P1 as (a1 & B1 & G1 & BV). destruct (sjoin_l _ _ _ _ _ _ _ _ J2 B1 G1) as (a3 & E3 & G3). eauto.
   - (* EBreak *) cbn. eauto.
   - (* EReturn *)
